@@ -34,7 +34,8 @@ def _parse_playback(text):
 def run_one(h, repo, workdir, env_extra=None):
     name = h['name']
     t0 = time.time()
-    env = dict(env_extra or os.environ, CARGO_NET_OFFLINE='true')
+    env = dict(os.environ, CARGO_NET_OFFLINE='true', CARGO_TARGET_DIR=os.path.join(KANI_DIR, 'target'))
+    env.update(env_extra or {})
     cmd = ['cargo', 'kani', '--harness', name, '-Z', 'concrete-playback', '--concrete-playback=print']
     cmd += h.get('extra', [])
     try:
@@ -121,11 +122,11 @@ def run_harnesses(harnesses, repo, workdir, tier):
     if not hs:
         return []
     t0 = time.time()
-    env = dict(os.environ, CARGO_NET_OFFLINE='true')
+    env = dict(os.environ, CARGO_NET_OFFLINE='true', CARGO_TARGET_DIR=os.path.join(KANI_DIR, 'target'))
     lock = os.path.join(repo, 'Cargo.lock')
     if os.path.exists(lock):
         shutil.copy(lock, os.path.join(KANI_DIR, 'Cargo.lock'))
-    cmd = ['cargo', 'kani', '--output-format', 'terse', '-j', str(min(4, len(hs)))]
+    cmd = ['cargo', 'kani', '--output-format', 'terse', '-j', str(max(2, min(4, len(hs))))]
     for h in hs:
         cmd += ['--harness', h['name']]
     try:
@@ -136,12 +137,14 @@ def run_harnesses(harnesses, repo, workdir, tier):
         return [dict(harness=h['name'], status='error', detail='timeout', checks=0, checks_ok=0, wall_s=round(time.time() - t0, 1),
                      bound=h['bound'], label=h['label'], cmd=' '.join(cmd)) for h in hs]
     blocks = _parse_parallel(out, [h['name'] for h in hs])
+    if len(hs) == 1 and not blocks[hs[0]['name']].strip():
+        blocks[hs[0]['name']] = out   # a single harness runs without `Thread N:` prefixes
     results = []
     failed_hs = [h for h in hs if 'VERIFICATION:- FAILED' in blocks[h['name']]]
     reruns = {}
     if failed_hs:
         def rr(h):
-            e = dict(os.environ, CARGO_TARGET_DIR=os.path.join(KANI_DIR, 'target_' + h['name']))
+            e = dict(CARGO_TARGET_DIR=os.path.join(KANI_DIR, 'target_' + h['name']))
             return h['name'], run_one(h, repo, workdir, env_extra=e)
         with ThreadPoolExecutor(max_workers=min(3, len(failed_hs))) as ex:
             reruns = dict(ex.map(rr, failed_hs))
